@@ -6,6 +6,28 @@ import os
 HERE = os.path.dirname(os.path.dirname(os.path.abspath(__file__)))
 
 CHECKS = {
+    'C03': dict(
+        engine='value-gen', category='exploration', design='4/C03',
+        technique='independent membership oracle on every suggestion of every registered algorithm over three routes (designer, policy factory, real service)',
+        text=('~4000 (space x algorithm x batch x history x route) cases per quick run, ~33k suggestions checked exactly against '
+              'vv.gen.member; all 11 algorithm names + DEFAULT with per-algorithm counters; GP designers get a fixed share (6 cases quick, '
+              '55+ thorough); refusals (exceptions) are allowed and counted, out-of-domain or incomplete suggestions never are.'),
+        note='Membership is exact. GP cases are few because one suggestion costs seconds. Per-case SIGALRM limit turns hangs into counted refusals.'),
+    'C13': dict(
+        engine='value-gen', category='fault_enumeration', design='4/C13',
+        technique='restart injection (dump -> real metadata protos / SQLite file -> new instance -> load) at every subset of steps; live-vs-restarted differential; service grid coverage ledger',
+        text=('for each base case (designer, space, seed, script of <=6 steps) all 2^n restart subsets are enumerated at three layers: '
+              'bare designer, PartiallySerializableDesignerPolicy over InRamPolicySupporter, real VizierServicer on an SQLite file with '
+              'server restarts; compares suggestion streams, dump() equality, NSGA-II population/phase/ids, and that K grid suggestions are '
+              'exactly the K grid points.'),
+        note='NSGA-II streams are not compared (its RNG is documented as not persisted); eagle dump timestamp masked.'),
+    'C14': dict(
+        engine='value-gen', category='exploration', design='4/C14',
+        technique='paired executions with equal (designer, problem, seed, history) under perturbed globals / interleaved studies / fresh subprocess with another PYTHONHASHSEED; seed-sensitivity pairs; seeded BenchmarkRunner pairs',
+        text=('random, quasi-random, shuffled grid, eagle, NSGA-II, CMA-ES, GP bandit, GP-UCB-PE streams and BenchmarkRunner runs '
+              '(18 BBOB x 9 noise types) compared pairwise exactly; variants: repeat, random/np.random/jax/time perturbed, interleaved, '
+              'fresh process, after PythiaServicer construction; three different seeds must not give one stream.'),
+        note='Cross-process GP mismatches count only when stable over 3 re-runs. GP pairs are few (4 quick).'),
     'C08': dict(
         engine='rpc-model', category='exploration', design='4/C08',
         technique='six-way differential of client-boundary traces (local / gRPC / split-Pythia x RAM / SQLite) + absolute client_abc promise monitors + server-side write monitor',
